@@ -3,6 +3,7 @@ package kafka
 import (
 	"hash/fnv"
 	"math"
+	"sync/atomic"
 )
 
 // C13: partition balancers return offered partitions and match the reference hashes.
@@ -233,4 +234,25 @@ func VH_C13_CustomHasher(which, L int) {
 		vhAssert(g2 == vrefSaramaReferenceHash(k2, n), "custom-hasher-refhash-second-message-independent-of-the-first")
 	}
 	vhReach("custom-hasher")
+}
+
+// The Writer hands the balancers the list 0..n-1 (the assumption of every harness above): loadCachedPartitions
+// returns exactly that list for every sequence of requested sizes, whatever the process-wide cache holds from
+// earlier requests.
+func VH_C13_PartitionList(calls int) {
+	partitionsCache = atomic.Value{} // a fresh process
+	sizes := []int{0, 3, 127, 128, 129, 148, 300} // around the cache's 128-entry alignment
+	for c := 0; c < calls; c++ {
+		n := sizes[vhChoose("partitions", len(sizes))]
+		list := loadCachedPartitions(n)
+		vhAssert(len(list) == n, "partition-list-has-the-requested-length")
+		ok := true
+		for i, p := range list {
+			if p != i {
+				ok = false
+			}
+		}
+		vhAssert(ok, "partition-list-is-0-to-n-minus-1")
+	}
+	vhReach("c13-partition-list")
 }
